@@ -168,6 +168,18 @@ def run(shard, ctx):
                             break
             except Exception as e:  # noqa: BLE001
                 ctx.fail("C02:%s.roundtrip_raises" % c.name, "build_cdb with a sibling operation code raised %s" % type(e).__name__, wit, exc=e)
+            # assigning the command's operation code object again (cmd.opcode = cmd.opcode, or the equal entry of another table)
+            # changes nothing in the CDB that was built
+            try:
+                before_op = bytes(cmd.cdb)
+                cmd.opcode = cmd.opcode
+                cmd.opcode = c.opcode_obj(c.sets[-1])
+                ctx.count("opcode_reassignments")
+                if bytes(cmd.cdb) != before_op:
+                    ctx.fail("C02:%s.cdb_changed_by_assigning_opcode" % c.name, "assigning cmd.opcode (the same entry) changed the CDB: %s, was %s" % (bytes(cmd.cdb).hex(), before_op.hex()), wit)
+                    cmd.cdb = bytearray(before_op)
+            except Exception as e:  # noqa: BLE001
+                ctx.fail("C02:%s.roundtrip_raises" % c.name, "assigning cmd.opcode raised %s" % type(e).__name__, wit, exc=e)
             # a field left out of the dictionary is a field that is zero: the same bytes as with the field given as 0
             try:
                 keys = [k for k in fields if k != "opcode"]
